@@ -501,6 +501,12 @@ func init() {
 			Default: Cfg{I: []int{volume.DefaultMfiPeriod}, F: []float64{su.DefaultMoneyFlowIndexStrategySellAt, su.DefaultMoneyFlowIndexStrategyBuyAt}},
 			Rand: func(r *gen.Rand) Cfg {
 				lo, hi := s3Thresholds(r, 50, 2, 18)
+				switch r.Intn(5) { // both levels on one side of the middle of the scale
+				case 0:
+					lo, hi = r.FRange(15, 30), r.FRange(35, 49)
+				case 1:
+					lo, hi = r.FRange(51, 60), r.FRange(65, 85)
+				}
 				return Cfg{I: []int{r.Range(1, 12)}, F: []float64{hi, lo}}
 			},
 			New: func(c Cfg) strategy.Strategy {
